@@ -50,62 +50,63 @@ fn main() {
             match prop.as_str() {
                 "C01" => {
                     drive::drive_c01(&t, &mut m, &mut sink);
-                    drive2::drive_focus_histories(&t, &mut sink, &["add", "sub", "mul"], &all, t.q(170, 1700), t.q(12, 20), &mut stats);
+                    drive2::drive_focus_histories(&t, &mut sink, &["add", "sub", "mul"], &[3, 4, 5], &all, t.q(170, 1700), t.q(12, 20), &mut stats);
                 }
                 "C02" => {
                     drive::drive_c02(&t, &mut m, &mut sink);
-                    drive2::drive_focus_histories(&t, &mut sink, &["div", "rem", "div_rem"], &all, t.q(170, 1700), t.q(12, 20), &mut stats);
+                    drive2::drive_focus_histories(&t, &mut sink, &["div", "rem", "div_rem"], &[11], &all, t.q(170, 1700), t.q(12, 20), &mut stats);
                 }
                 "C03" => drive2::drive_c03(&t, &mut sink, &mut stats),
                 "C04" => {
                     drive::drive_c04(&t, &mut m, &mut sink);
-                    drive2::drive_focus_histories(&t, &mut sink, &["and", "or", "xor", "not"], &all, t.q(170, 1700), t.q(12, 20), &mut stats);
+                    drive2::drive_focus_histories(&t, &mut sink, &["and", "or", "xor", "not"], &[0, 1, 2, 9], &all, t.q(170, 1700), t.q(12, 20), &mut stats);
                 }
                 "C05" => {
                     drive::drive_c05(&t, &mut m, &mut sink);
-                    drive2::drive_focus_histories(&t, &mut sink, &["shl", "shr", "shl_in", "shr_in"], &all, t.q(170, 1700), t.q(12, 20), &mut stats);
+                    drive2::drive_focus_histories(&t, &mut sink, &["shl", "shr", "shl_in", "shr_in"], &[], &all, t.q(170, 1700), t.q(12, 20), &mut stats);
                 }
                 "C06" => {
                     drive::drive_c06(&t, &mut m, &mut sink);
-                    drive2::drive_focus_histories(&t, &mut sink, &["rotl", "rotr"], &all, t.q(170, 1700), t.q(12, 20), &mut stats);
+                    drive2::drive_focus_histories(&t, &mut sink, &["rotl", "rotr"], &[], &all, t.q(170, 1700), t.q(12, 20), &mut stats);
                 }
                 "C07" => {
                     drive::drive_c07_cases(&t, &mut m, &mut sink);
                     drive2::drive_histories(&t, &mut sink, drive2::Profile::Edits, "fun", &all, t.q(400, 2400), t.q(25, 40), &mut stats);
+                    drive2::drive_focus_histories(&t, &mut sink, &["push", "pop", "set", "resize", "truncate", "sign_extend", "append", "prepend", "insert", "extend"], &[7, 8], &all, t.q(170, 1700), t.q(12, 20), &mut stats);
                 }
                 "C08" => {
                     drive::drive_c08(&t, &mut m, &mut sink);
-                    drive2::drive_focus_histories(&t, &mut sink, &["copy_range", "split_off", "split", "first", "last"], &all, t.q(170, 1700), t.q(12, 20), &mut stats);
+                    drive2::drive_focus_histories(&t, &mut sink, &["copy_range", "split_off", "split", "first", "last"], &[], &all, t.q(170, 1700), t.q(12, 20), &mut stats);
                 }
                 "C09" => {
                     drive::drive_c09(&t, &mut m, &mut sink);
-                    drive2::drive_focus_histories(&t, &mut sink, &["eq", "lt", "ge", "pcmp", "cmp"], &all, t.q(170, 1700), t.q(12, 20), &mut stats);
+                    drive2::drive_focus_histories(&t, &mut sink, &["eq", "lt", "ge", "pcmp", "cmp"], &[6, 10], &all, t.q(170, 1700), t.q(12, 20), &mut stats);
                 }
                 "C10" => {
                     drive2::drive_c10(&t, &mut sink, &mut stats);
-                    drive2::drive_focus_histories(&t, &mut sink, &["hash", "hash_slice", "hs_contains"], &all, t.q(170, 1700), t.q(12, 20), &mut stats);
+                    drive2::drive_focus_histories(&t, &mut sink, &["hash", "hash_slice", "hs_contains"], &[], &all, t.q(170, 1700), t.q(12, 20), &mut stats);
                 }
                 "C11" => {
                     drive::drive_c11(&t, &mut m, &mut sink);
                     sink.emit(drive::bit_conversion_events(dbg));
-                    drive2::drive_focus_histories(&t, &mut sink, &["to_int"], &all, t.q(170, 1700), t.q(12, 20), &mut stats);
+                    drive2::drive_focus_histories(&t, &mut sink, &["to_int"], &[], &all, t.q(170, 1700), t.q(12, 20), &mut stats);
                 }
                 "C12" => {
                     drive::drive_c12(&t, &mut m, &mut sink);
-                    drive2::drive_focus_histories(&t, &mut sink, &["convert", "clone", "new_inner"], &all, t.q(170, 1700), t.q(12, 20), &mut stats);
+                    drive2::drive_focus_histories(&t, &mut sink, &["convert", "clone", "new_inner"], &[], &all, t.q(170, 1700), t.q(12, 20), &mut stats);
                 }
                 "C13" => {
                     drive::drive_c13(&t, &mut m, &mut sink);
-                    drive2::drive_focus_histories(&t, &mut sink, &["to_vec", "write"], &all, t.q(170, 1700), t.q(12, 20), &mut stats);
+                    drive2::drive_focus_histories(&t, &mut sink, &["to_vec", "write"], &[], &all, t.q(170, 1700), t.q(12, 20), &mut stats);
                 }
                 "C14" => {
                     drive::drive_c14(&t, &mut m, &mut sink);
-                    drive2::drive_focus_histories(&t, &mut sink, &["fmt"], &all, t.q(170, 1700), t.q(12, 20), &mut stats);
+                    drive2::drive_focus_histories(&t, &mut sink, &["fmt"], &[], &all, t.q(170, 1700), t.q(12, 20), &mut stats);
                 }
                 "C15" => drive::drive_c15(&t, &mut m, &mut sink),
                 "C16" => {
                     drive::drive_c16(&t, &mut m, &mut sink);
-                    drive2::drive_focus_histories(&t, &mut sink, &["leading_zeros", "leading_ones", "trailing_zeros", "trailing_ones", "significant_bits", "is_zero"], &all, t.q(170, 1700), t.q(12, 20), &mut stats);
+                    drive2::drive_focus_histories(&t, &mut sink, &["leading_zeros", "leading_ones", "trailing_zeros", "trailing_ones", "significant_bits", "is_zero"], &[], &all, t.q(170, 1700), t.q(12, 20), &mut stats);
                 }
                 "C17" => drive2::drive_c17(&t, &mut sink, &mut stats),
                 "C18" => {
